@@ -159,6 +159,35 @@ func NewLoadBalancer(wd *env.World, ns, nc, buffer int, unique bool) *LoadBalanc
 	return l
 }
 
+func (l *LoadBalancer) TLCSystem(repo string) tlc.System {
+	return tlc.System{Name: "load_balancer", SpecPath: repo + "/systems/loadbalancer/load_balancer.tla", Retranslate: true,
+		Vars: []string{"pc", "network", "in", "out", "fs", "msg", "next", "msg0", "req", "resp"},
+		Consts: map[string]string{"BUFFER_SIZE": fmt.Sprint(l.Buffer), "NUM_SERVERS": fmt.Sprint(l.NS), "NUM_CLIENTS": fmt.Sprint(l.NC), "LoadBalancerId": "0",
+			"GET_PAGE": "200", "WEB_PAGE": "42", "defaultInitValue": "defaultInitValue"}}
+}
+
+func (l *LoadBalancer) State() tlc.State {
+	ids := []string{"0"}
+	pcs := []string{pcOf(l.LB)}
+	var sids, smsg, cids, creq, cresp []string
+	for _, a := range l.Servers {
+		ids = append(ids, tlc.Render(a.Self))
+		pcs = append(pcs, pcOf(a))
+		sids = append(sids, tlc.Render(a.Self))
+		smsg = append(smsg, localOr(a, "AServer.msg"))
+	}
+	for _, a := range l.Clients {
+		ids = append(ids, tlc.Render(a.Self))
+		pcs = append(pcs, pcOf(a))
+		cids = append(cids, tlc.Render(a.Self))
+		creq = append(creq, localOr(a, "AClient.req"))
+		cresp = append(cresp, localOr(a, "AClient.resp"))
+	}
+	return tlc.State{"pc": fnOver(ids, pcs), "network": tlc.Render(l.WD.Vars["network"]), "in": tlc.Render(l.WD.Vars["in"]), "out": tlc.Render(l.WD.Vars["out"]),
+		"fs": "(0 :> 42)", "msg": localOr(l.LB, "ALoadBalancer.msg"), "next": localOr(l.LB, "ALoadBalancer.next"),
+		"msg0": fnOver(sids, smsg), "req": fnOver(cids, creq), "resp": fnOver(cids, cresp)}
+}
+
 // ---------------------------------------------------------------------------------
 // proxy.tla
 
@@ -170,6 +199,7 @@ type Proxy struct {
 	Proxy   *env.Actor
 	Servers []*env.Actor
 	Clients []*env.Actor
+	Inputs  []string // per client: name of the world variable holding the Requests counter (spec local `input`)
 }
 
 func NewProxy(wd *env.World, ns, nc int, explore, perfect bool) *Proxy {
@@ -255,12 +285,17 @@ func NewProxy(wd *env.World, ns, nc int, explore, perfect bool) *Proxy {
 			distsys.EnsureArchetypeRefParam("net", net()), distsys.EnsureArchetypeRefParam("netEnabled", netEnabled()), distsys.EnsureArchetypeRefParam("fd", fd())))
 	}
 	for k := 1; k <= nc; k++ {
-		counter := int32(0)
-		input := wd.NewRes("input", // Requests: read { with (value = $variable) { $variable := $variable + 1; yield value; } }
+		// Requests: read { with (value = $variable) { $variable := $variable + 1; yield value; } }
+		// the client's local `input` of the PlusCal translation, kept with the world's variables so
+		// that an aborted attempt does not consume a value
+		iv := fmt.Sprintf("input%d", ns+k)
+		wd.Vars[iv] = num(0)
+		p.Inputs = append(p.Inputs, iv)
+		input := wd.NewRes("input",
 			func(wd *env.World, idx []tla.Value) (tla.Value, error) {
-				v := counter
-				counter++
-				return tla.MakeNumber(v), nil
+				v := wd.Get(iv)
+				wd.Set(iv, tla.MakeNumber(v.AsNumber()+1))
+				return v, nil
 			},
 			func(*env.World, []tla.Value, tla.Value) error { return env.AssertFail("write to Requests") })
 		p.Clients = append(p.Clients, wd.AddActor(fmt.Sprintf("client%d", k), num(ns+k), proxy.AClient, nil, consts,
@@ -273,4 +308,38 @@ func NewProxy(wd *env.World, ns, nc int, explore, perfect bool) *Proxy {
 func (p *Proxy) ServerGone(i int) bool {
 	a := p.Servers[i-1]
 	return a.Done() || a.PC == "AServer.failLabel" || a.PC == "AServer.Done"
+}
+
+func (p *Proxy) TLCSystem(repo string) tlc.System {
+	return tlc.System{Name: "proxy", SpecPath: repo + "/systems/proxy/proxy.tla", Retranslate: true,
+		Vars: []string{"pc", "network", "fd", "output", "msg", "proxyMsg", "idx", "resp", "proxyResp", "msg0", "resp0", "req", "resp1", "reqId", "input"},
+		Consts: map[string]string{"NUM_SERVERS": fmt.Sprint(p.NS), "NUM_CLIENTS": fmt.Sprint(p.NC), "EXPLORE_FAIL": map[bool]string{true: "TRUE", false: "FALSE"}[p.Explore],
+			"CLIENT_RUN": "TRUE", "defaultInitValue": "defaultInitValue"}}
+}
+
+func (p *Proxy) State() tlc.State {
+	ids := []string{tlc.Render(p.Proxy.Self)}
+	pcs := []string{pcOf(p.Proxy)}
+	var sids, smsg, sresp, cids, creq, cresp, cid, cin []string
+	for _, a := range p.Servers {
+		ids = append(ids, tlc.Render(a.Self))
+		pcs = append(pcs, pcOf(a))
+		sids = append(sids, tlc.Render(a.Self))
+		smsg = append(smsg, localOr(a, "AServer.msg"))
+		sresp = append(sresp, localOr(a, "AServer.resp"))
+	}
+	for k, a := range p.Clients {
+		ids = append(ids, tlc.Render(a.Self))
+		pcs = append(pcs, pcOf(a))
+		cids = append(cids, tlc.Render(a.Self))
+		creq = append(creq, localOr(a, "AClient.req"))
+		cresp = append(cresp, localOr(a, "AClient.resp"))
+		cid = append(cid, localOr(a, "AClient.reqId"))
+		cin = append(cin, tlc.Render(p.WD.Vars[p.Inputs[k]]))
+	}
+	V := p.WD.Vars
+	return tlc.State{"pc": fnOver(ids, pcs), "network": tlc.Render(V["network"]), "fd": tlc.Render(V["fd"]), "output": tlc.Render(V["output"]),
+		"msg": localOr(p.Proxy, "AProxy.msg"), "proxyMsg": localOr(p.Proxy, "AProxy.proxyMsg"), "idx": localOr(p.Proxy, "AProxy.idx"),
+		"resp": localOr(p.Proxy, "AProxy.resp"), "proxyResp": localOr(p.Proxy, "AProxy.proxyResp"),
+		"msg0": fnOver(sids, smsg), "resp0": fnOver(sids, sresp), "req": fnOver(cids, creq), "resp1": fnOver(cids, cresp), "reqId": fnOver(cids, cid), "input": fnOver(cids, cin)}
 }
